@@ -303,6 +303,114 @@ fn replay_slim_fat(v: Value) -> CaseResult {
     check_slim_fat(&c.name)
 }
 
+// --- a zoneinfo directory with entries that cannot be read: every real zone is still served ----------
+
+/// A private copy of some bundled zones in a zoneinfo-shaped tree in which every directory also
+/// holds things a scan must step over (dangling symlinks, a symlink loop, empty and short files,
+/// non-TZif files, an empty directory), under names that sort before, between and after the
+/// zones. The same bytes through `from_dir` must give the same zones as through `TimeZone::tzif`,
+/// and the list of names must be exactly the zones.
+fn make_obstacle_tree(tag: &str) -> (std::path::PathBuf, Vec<String>) {
+    let root = std::path::PathBuf::from(format!("{}/.work/c18-obst-{}-{tag}", VERIF_DIR, std::process::id()));
+    let _ = std::fs::remove_dir_all(&root);
+    let names: Vec<String> = bundled_names().iter().filter(|n| n.len() < 40 && !n.contains("GMT+") && !n.contains("GMT-")).cloned().collect();
+    let picked: Vec<String> = names.iter().step_by((names.len() / 90).max(1)).cloned().collect();
+    let mut dirs: std::collections::BTreeSet<std::path::PathBuf> = std::collections::BTreeSet::new();
+    dirs.insert(root.clone());
+    for n in &picked {
+        let path = root.join(n);
+        if let Some(parent) = path.parent() {
+            let _ = std::fs::create_dir_all(parent);
+            let mut p = parent.to_path_buf();
+            while p.starts_with(&root) {
+                dirs.insert(p.clone());
+                if !p.pop() {
+                    break;
+                }
+            }
+        }
+        if let Some((_, bytes)) = jiff_tzdb::get(n) {
+            std::fs::write(&path, bytes).expect("write zone copy");
+        }
+    }
+    for (k, d) in dirs.iter().enumerate() {
+        for pre in ["0", "AAA", "Mm", "localtime", "zz~"] {
+            let _ = std::os::unix::fs::symlink("/nonexistent/verif/target", d.join(format!("{pre}-dangling")));
+        }
+        let _ = std::os::unix::fs::symlink(d.join("Loop-b"), d.join("Loop-a"));
+        let _ = std::os::unix::fs::symlink(d.join("Loop-a"), d.join("Loop-b"));
+        let _ = std::fs::write(d.join("Empty-file"), b"");
+        let _ = std::fs::write(d.join("short"), b"TZ");
+        let _ = std::fs::write(d.join("zone.tab"), b"# not a time zone\nXX\t+0000+00000\tNowhere\n");
+        let _ = std::fs::write(d.join("+VERSION"), b"2099z\n");
+        let _ = std::fs::create_dir_all(d.join(format!("Emptydir{k}")));
+    }
+    (root, picked)
+}
+
+fn check_obstacle_zone(db: &TimeZoneDatabase, name: &str) -> CaseResult {
+    let Some((_, bytes)) = jiff_tzdb::get(name) else { return Ok(()) };
+    let direct = TimeZone::tzif(name, bytes).map_err(|e| Failure::new("harness-tzif", e.to_string()))?;
+    for q in [name.to_string(), name.to_ascii_lowercase(), name.to_ascii_uppercase()] {
+        match db.get(&q) {
+            Ok(tz) => ensure!(tz == direct && tz.iana_name() == Some(name), "dir-with-obstacles-differs", "from_dir.get({q:?}) = {tz:?}, not the zone in the file"),
+            Err(e) => fail!("dir-with-obstacles-missing", "from_dir.get({q:?}) fails although {name} is a valid TZif file in the tree (next to unreadable entries): {e}"),
+        }
+    }
+    Ok(())
+}
+
+fn check_obstacle_list(db: &TimeZoneDatabase, picked: &[String]) -> CaseResult {
+    let mut listed: Vec<String> = db.available().map(|n| n.as_str().to_string()).collect();
+    listed.sort();
+    let missing: Vec<&String> = picked.iter().filter(|n| !listed.contains(n)).collect();
+    let extra: Vec<&String> = listed.iter().filter(|n| !picked.contains(n)).collect();
+    ensure!(missing.is_empty() && extra.is_empty(), "dir-with-obstacles-available", "from_dir over a tree with dangling symlinks and non-TZif files: available() misses {missing:?} and lists {extra:?}");
+    Ok(())
+}
+
+fn run_dir_obstacles(rec: &Recorder, check: &'static str) {
+    let (root, picked) = make_obstacle_tree("sweep");
+    let db = match TimeZoneDatabase::from_dir(&root) {
+        Ok(db) => db,
+        Err(e) => {
+            sweep_case(rec, check, &NameCase { name: "(open)".into() }, || Err(Failure::new("dir-with-obstacles-not-opened", format!("from_dir on a tree with unreadable entries fails: {e}"))));
+            let _ = std::fs::remove_dir_all(&root);
+            return;
+        }
+    };
+    sweep_case(rec, check, &NameCase { name: "(available)".into() }, || check_obstacle_list(&db, &picked));
+    let mut n = 0u64;
+    for name in &picked {
+        n += 1;
+        sweep_case(rec, check, &NameCase { name: name.clone() }, || check_obstacle_zone(&db, name));
+    }
+    rec.add_evaluations(n + 1);
+    rec.add_distinct_nontrivial(n + 1);
+    rec.add_class("dir-with-obstacles:zones", n);
+    rec.add_sample(json!({"check": check, "tree": "copies of bundled zones + dangling symlinks, symlink loop, empty/short/non-TZif files, empty directories in every directory"}));
+    let _ = std::fs::remove_dir_all(&root);
+}
+
+fn replay_dir_obstacles(v: Value) -> CaseResult {
+    let c: NameCase = serde_json::from_value(v).map_err(|e| Failure::new("decode", e.to_string()))?;
+    let (root, picked) = make_obstacle_tree("replay");
+    let r = match TimeZoneDatabase::from_dir(&root) {
+        Err(e) => Err(Failure::new("dir-with-obstacles-not-opened", format!("from_dir on a tree with unreadable entries fails: {e}"))),
+        Ok(db) => {
+            if c.name == "(available)" {
+                check_obstacle_list(&db, &picked)
+            } else if c.name == "(open)" {
+                Ok(())
+            } else {
+                check_obstacle_zone(&db, &c.name)
+            }
+        }
+    };
+    let _ = std::fs::remove_dir_all(&root);
+    r
+}
+
 // --- names: ASCII case-insensitive lookup returns the canonical spelling ----------------------------
 
 #[derive(Serialize, Deserialize, Debug, Clone)]
@@ -334,6 +442,35 @@ fn test_case_variant(c: &CaseVariant, cx: &mut Cx) -> CaseResult {
         match db.get(&q) {
             Ok(tz) => ensure!(tz.iana_name() == Some(canon.as_str()), format!("{what}-not-canonical"), "{what}.get({q:?}).iana_name() = {:?}, want {canon:?}", tz.iana_name()),
             Err(e) => fail!(format!("{what}-case-sensitive"), "{what}.get({q:?}) fails: {e}"),
+        }
+    }
+    // ASCII case-insensitive, not Unicode case-insensitive: a spelling with one letter replaced
+    // by a non-ASCII character that Unicode case mapping folds onto it (KELVIN SIGN -> k,
+    // LONG S -> s, dotted/dotless i, fullwidth letters) is a different name in every back-end
+    {
+        let letters: Vec<(usize, char)> = canon.char_indices().filter(|(_, ch)| ch.is_ascii_alphabetic()).collect();
+        let (pos, ch) = letters[(c.flips >> 7) as usize % letters.len()];
+        let special = match ch.to_ascii_lowercase() {
+            'k' => Some('\u{212A}'),
+            's' => Some('\u{017F}'),
+            'i' => Some(if c.flips & 1 == 0 { '\u{0130}' } else { '\u{0131}' }),
+            _ => None,
+        };
+        // prefer a letter that has a special folding, if the name has one
+        let (pos, ch, sub) = match letters.iter().find(|(_, l)| matches!(l.to_ascii_lowercase(), 'k' | 's' | 'i')).filter(|_| special.is_none() && c.flips & 2 == 0) {
+            Some(&(p2, l2)) => (p2, l2, match l2.to_ascii_lowercase() { 'k' => '\u{212A}', 's' => '\u{017F}', _ => '\u{0131}' }),
+            None => (pos, ch, special.unwrap_or_else(|| char::from_u32(0xFF21 + (ch.to_ascii_uppercase() as u32 - 'A' as u32) + if ch.is_ascii_lowercase() { 0x20 } else { 0 }).unwrap())),
+        };
+        let mut alike = String::new();
+        alike.push_str(&q[..pos]);
+        alike.push(sub);
+        alike.push_str(&q[pos + ch.len_utf8()..]);
+        cx.class("non-ascii-look-alike");
+        let mut all: Vec<(&str, &TimeZoneDatabase)> = vec![("bundled", &b.bundled), ("concatenated", &b.concatenated), ("from_dir", &b.installed)];
+        for (what, db) in all.drain(..) {
+            if let Ok(tz) = db.get(&alike) {
+                fail!(format!("{what}-accepts-non-ascii-variant"), "{what}.get({alike:?}) resolves to {:?}: lookup is documented as ASCII case-insensitive, {sub:?} is not an ASCII letter", tz.iana_name());
+            }
         }
     }
     // installed directory: its own canonical spelling
@@ -622,6 +759,7 @@ pub fn property() -> Property {
             Box::new(Sweep { name: "c18.same_bytes", run: run_bundled, replay: replay_bundled }),
             Box::new(Sweep { name: "c18.installed", run: run_installed, replay: replay_installed }),
             Box::new(Sweep { name: "c18.slim_fat_static", run: run_slim_fat, replay: replay_slim_fat }),
+            Box::new(Sweep { name: "c18.dir_obstacles", run: run_dir_obstacles, replay: replay_dir_obstacles }),
             Box::new(Prop { name: "c18.names", quick: 120_000, thorough: 2_000_000, strategy: strat_case_variant, test: test_case_variant }),
             Box::new(Prop { name: "c18.posix_print", quick: 600_000, thorough: 6_000_000, strategy: strat_posix_print, test: test_posix_print }),
             Box::new(Prop { name: "c18.fatten_generated", quick: 60_000, thorough: 2_000_000, strategy: strat_fatten, test: test_fatten }),
